@@ -55,6 +55,7 @@ int     skel_ind = 0;
 char   *action_array;
 int     action_size, defs1_offset, prolog_offset, action_offset,
 	action_index;
+int     rule_setup_index = -1;
 char   *infilename = NULL;
 char   *extra_type = NULL;
 int     onestate[ONE_STACK_SIZE], onesym[ONE_STACK_SIZE];
